@@ -100,6 +100,7 @@ func runC04(e *Env) {
 	rng := e.Rng.Fork()
 	frng := e.Rng.Fork().Fork() // the fragment-only generator's stream (c04frag.go)
 	funrng := e.Rng.Fork().Fork().Fork() // the function-fragment generator's stream (c04fun.go)
+	mvrng := e.Rng.Fork().Fork().Fork().Fork() // the multi-variable statement generator's stream (c04multi.go)
 	for i := 0; i < nProg; i++ {
 		r := rng.Fork()
 		o := GenOpts{MaxStmts: 3 + r.Intn(3), MaxDepth: 2 + r.Intn(3), Budget: 60 + r.Intn(200), Funcs: true, Closures: true,
@@ -108,7 +109,9 @@ func runC04(e *Env) {
 		c04Program(e, p, fmt.Sprintf("gen#%d", i))
 		c04FragTie(e, p, frng)
 		c04FunTie(e, p, funrng)
+		c04CloTie(e, p) // the closure fragment F5 (c04clo.go)
 	}
+	c04Multi(e, mvrng)
 	c04Directed(e)
 	c04FragDeep(e)
 	// repository scripts
